@@ -838,4 +838,31 @@ def layoutOK : List (CT × List Char) → Bool
   | [] => true
   | (t, g) :: r => gapOK t.2 g (renderL r) && layoutOK r
 
+/-! ## token classes: the spellings of one token (audit finding 10(a))
+
+What the real lexer / `name` callback / `range` callback map to the same value:
+* **keywords**: the grammar's literals (`"module"`, `"input"`, … `"endmodule"`) carry no `i` flag — each keyword has exactly ONE
+  spelling (`Input`, `MODULE` are plain names / lexical errors); the class is a singleton.
+* **names**: `VerilogTransformer.name` strips backslash and terminator of an escaped identifier, so `\abc ` and `abc` are the SAME
+  name (also `\4'b0011 ` and `4'b0011`: the string decides in `sigsel`, not the token type).  Every plain word that is no statement
+  keyword may be written escaped.  (The seven statement keywords as NAMES: canonical spelling is the escaped one; written plain they
+  are names only where no statement begins — `wire input;` — which `sameTok` does not cover.)
+* **numbers in ranges**: `int(token)` — every non-empty digit string with the same value (`[03:0]`, `[3:00]`).
+* **sized constants** are names; different spellings of one value (`4'b0011`, `4'B0011`, `4'd3`, `4'h3`, `04'b11`) are DIFFERENT
+  names that `sigsel` expands to the same bit list: class `sameSel` below, on the tree. -/
+
+/-- `a` is a spelling of the canonical token `t` -/
+def sameTok (a t : Tok) : Bool :=
+  a == t ||
+  match a, t with
+  | .esc x, .word w => x == w && (kwOf w).isNone
+  | .num ds, .num ds' => !ds.isEmpty && ds.all Char.isDigit && numVal ds == numVal ds'
+  | _, _ => false
+
+/-- token list `as` is, token by token (same lexer context), a spelling of the canonical token list `ts` -/
+def spellsB : List CT → List CT → Bool
+  | [], [] => true
+  | (c, a) :: r, (c', t) :: r' => c == c' && sameTok a t && spellsB r r'
+  | _, _ => false
+
 end KV.VerilogText
